@@ -114,6 +114,17 @@ func genOps(r *sim.Rng, e *reflzma.Encoder, n int, maxContent int) {
 	}
 }
 
+// badLZMA2Props draws parameters that are legal for classic LZMA and illegal
+// for LZMA2: lc+lp > 4.
+func badLZMA2Props(r *sim.Rng) reflzma.Props {
+	for {
+		p := reflzma.Props{LC: r.Intn(9), LP: r.Intn(5), PB: r.Intn(5)}
+		if p.LC+p.LP > 4 {
+			return p
+		}
+	}
+}
+
 // RandProps draws lc/lp/pb; lzma2 restricts lc+lp <= 4.
 func RandProps(r *sim.Rng, lzma2 bool) reflzma.Props {
 	for {
@@ -237,6 +248,11 @@ type SeqOptions struct {
 	ForceCompressed map[int]int
 	// Garbage[i] replaces chunk i by these raw bytes (invalid control bytes).
 	Garbage map[int][]byte
+	// BadProps[i]: chunk i (LRN or LRND) carries literal parameters with
+	// lc+lp > 4, which LZMA2 forbids (classic LZMA does not); the chunk's data
+	// is encoded with exactly those parameters, so that only the rule can
+	// reject it
+	BadProps map[int]bool
 	// Costly[i]: LZMA chunk i consists of the most expensive legal operations -
 	// two-byte matches at far, ever-changing distances - so that its compressed
 	// size exceeds its uncompressed size by as much as the history allows (the
@@ -297,10 +313,16 @@ func Realise(r *sim.Rng, kinds []string, o SeqOptions) *ChunkSeq {
 			case "LRND":
 				e.ResetDict()
 				p = RandProps(r, true)
+				if o.BadProps[ci] {
+					p = badLZMA2Props(r)
+				}
 				e.NewProps(p)
 				haveModel = true
 			case "LRN":
 				p = RandProps(r, true)
+				if o.BadProps[ci] {
+					p = badLZMA2Props(r)
+				}
 				e.NewProps(p)
 				haveModel = true
 			case "LR":
